@@ -28,6 +28,15 @@ def q(v, U, exact, floor=False):
     return int(f)
 
 
+_BASE = [Fraction(0)]
+
+
+def qp(v, U, exact):
+    """A POSITION (data position, target, final position, bound) relative to the instance's base: the predicates are invariant under
+    translation, and coordinates of the order of 1e7..1e13 do not fit TLC's integers."""
+    return q(Fraction(v) - _BASE[0], U, exact)
+
+
 DOC_DEFAULTS = {"nodeSpacing": 3, "minPos": 0, "maxPos": None, "algorithm": "overlap", "density": 0.85, "stubWidth": 1}
 
 
@@ -72,11 +81,11 @@ def _project(force, nodes, labels, opts, U, lattice, exact):
             target = parent.currentPos if parent is not None else (n.idealPos if d == 0 else obj.idealPos)
             it = {
                 "k": kind, "id": lid,
-                "t": q(target, U, exact),
+                "t": qp(target, U, exact),
                 "w": q(obj.width, U, exact, floor=not lattice),
-                "p": q(obj.currentPos, U, exact),
+                "p": qp(obj.currentPos, U, exact),
                 "li": int(obj.layerIndex),
-                "ideal": q(obj.idealPos, U, exact),
+                "ideal": qp(obj.idealPos, U, exact),
                 "dataok": 1 if obj.data is n.data else 0,
                 "parentlayer": (int(parent.layerIndex) + 1) if parent is not None else 0,
                 "childlayer": 0,
@@ -124,14 +133,16 @@ def _project(force, nodes, labels, opts, U, lattice, exact):
         "opts": {
             "ns": q(o["nodeSpacing"], U, exact, floor=not lattice),
             "hasMin": 0 if o.get("minPos") is None else 1,
-            "minPos": 0 if o.get("minPos") is None else q(o["minPos"], U, exact),
+            # (a lower bound billions of units to the left of a far-away instance is recorded as "at least 1e6 units to the left":
+            #  the true bound is farther still, so nothing that holds for the recorded one fails for the true one)
+            "minPos": 0 if o.get("minPos") is None else max(qp(o["minPos"], U, exact), -10 ** 6),
             "hasMax": 0 if o.get("maxPos") is None else 1,
-            "maxPos": 0 if o.get("maxPos") is None else q(o["maxPos"], U, exact),
+            "maxPos": 0 if o.get("maxPos") is None else qp(o["maxPos"], U, exact),
             "densN": dens.numerator, "densD": dens.denominator,
             "stubW": q(o["stubWidth"], U, exact, floor=not lattice),
             "alg": o["algorithm"],
         },
-        "labels": [{"id": i + 1, "ideal": q(a, U, exact), "w": q(w, U, exact, floor=not lattice)}
+        "labels": [{"id": i + 1, "ideal": qp(a, U, exact), "w": q(w, U, exact, floor=not lattice)}
                    for i, (a, w) in enumerate(labels)],
         "layers": out_layers,
         "chainlen": chainlen,
@@ -141,6 +152,14 @@ def _project(force, nodes, labels, opts, U, lattice, exact):
 
 
 def run_instance(inst, U, lattice):
+    _BASE[0] = Fraction(inst.get("base", 0))
+    try:
+        return _run_instance(inst, U, lattice)
+    finally:
+        _BASE[0] = Fraction(0)
+
+
+def _run_instance(inst, U, lattice):
     labels = [tuple(x) for x in inst["labels"]]
     nodes = [Node(float(a) if not lattice else _num(a), _num(w), {"id": i + 1}) for i, (a, w) in enumerate(labels)]
     # a caller who wants a documented default usually does not pass the key at all: default-valued keys are dropped on a
@@ -150,7 +169,9 @@ def run_instance(inst, U, lattice):
     f = Force(passed if passed or coin.random() < 0.5 else None)
     f.nodes(list(nodes))       # (the engine may sort the list it is given in place; keep ours in label order)
     try:
-        with guard.limit(900):
+        # (a far-away instance that makes the solver cycle must not stall the check for a quarter of an hour: 40 s of CPU are
+        #  four orders of magnitude above the cost of a 25-label layout)
+        with guard.limit(40 if inst.get("base") else 900):
             f.compute()
     except RecursionError:
         return {"error": "RecursionError", "n": len(labels)}
@@ -452,6 +473,27 @@ def run_siblings(rng):
     return out
 
 
+def gen_far(rng):
+    """An ordinary half-unit instance translated to coordinates of the order of 1e7 .. 1e13 (time stamps in seconds, milliseconds
+    or microseconds used as positions): same widths and spacings, positions base + small.  Bounds, when present, sit at the same
+    magnitude.  Records are projected relative to the base (the predicates are translation invariant; all values are exactly
+    representable floats)."""
+    inst = gen_random(rng, "random")
+    if len(inst["labels"]) > 25:
+        inst["labels"] = inst["labels"][:25]
+    base = rng.choice([10 ** 7, 10 ** 9, 1700000000, 10 ** 10, 10 ** 12, 1700000000000, 10 ** 13])
+    inst["labels"] = [[base + a, w] for a, w in inst["labels"]]
+    o = inst["opts"]
+    walls = rng.random() < 0.5
+    for k in ("minPos", "maxPos"):
+        if o.get(k) is not None:
+            o[k] = (base + o[k]) if walls else None
+    if not walls and rng.random() < 0.5:
+        o["minPos"] = 0            # the documented default: a lower bound far to the left
+    inst["base"] = base
+    return inst
+
+
 def gen_centi(rng):
     """Values with two decimals (what a scale hands over is not on the half-unit lattice): exact in units of 1/200, so the
     optimum is still decided exactly.  Sizes stay inside the 32-bit envelope of the pool-adjacent-violators products."""
@@ -506,6 +548,8 @@ def main():
         while len(recs) < job["count"]:
             if mode == "float":
                 r = run_instance(gen_float(rng), 1000, False)
+            elif mode == "far":
+                r = run_instance(gen_far(rng), 4, True)
             elif mode == "centi":
                 r = run_instance(gen_centi(rng), 200, True)
             elif mode == "relayout":
